@@ -20,8 +20,9 @@ NSHARDS = 16
 MIXES = ("uni", "uni+aave", "uni+deribit", "squeeth", "aave+squeeth+deribit", "uni+gmx+gmx2", "deribit", "all")
 INTERVALS = ("1min", "5min", "1h", "4h")
 LENGTHS = (1, 2, 7, 60, 61, 1440)
-STEP_MIN = {"1min": 1, "5min": 5, "1h": 60, "4h": 240, "min": 1, "h": 60, "60min": 60, "240min": 240, "15min": 15, "2h": 120}
-VARIANTS = ("min", "h", "60min", "240min", "15min", "2h")  # other spellings / other widths, random cases only
+STEP_MIN = {"1min": 1, "5min": 5, "1h": 60, "4h": 240, "min": 1, "h": 60, "60min": 60, "240min": 240, "15min": 15, "2h": 120,
+            "7min": 7, "45min": 45, "D": 1440}
+VARIANTS = ("min", "h", "60min", "240min", "15min", "2h", "7min", "45min", "D")  # other spellings / widths, random cases only
 PHASES = ("initialize", "before_bar", "trigger", "on_bar", "after_bar", "notify")
 META = {
     "level": "exploration",
@@ -324,8 +325,9 @@ def fpv(x):
         return "s" + str(x)
 
 
-def floor_to(ts: datetime, step_min: int) -> datetime:
-    day = ts.replace(hour=0, minute=0, second=0, microsecond=0)
+def floor_to(ts: datetime, step_min: int, origin: datetime = None) -> datetime:
+    """start of the bin of width step_min that holds ts; bins are counted from midnight of `origin`'s day"""
+    day = (origin or ts).replace(hour=0, minute=0, second=0, microsecond=0)
     mins = int((ts - day).total_seconds() // 60)
     return day + timedelta(minutes=(mins // step_min) * step_min)
 
@@ -335,7 +337,7 @@ def expected_index(times, interval):
     if interval in ("1min", "min"):
         return list(times)
     step = STEP_MIN[interval]
-    a, b = floor_to(times[0], step), floor_to(times[-1], step)
+    a, b = floor_to(times[0], step, times[0]), floor_to(times[-1], step, times[0])
     out = []
     while a <= b:
         out.append(a)
@@ -541,7 +543,7 @@ class World:
                 for d in out:
                     d.setdefault(name, {})[str(col)] = set()
                 for ts, v in rows:
-                    i = pos.get(ts if step == 1 else floor_to(ts, step))
+                    i = pos.get(ts if step == 1 else floor_to(ts, step, self.expected[0]))
                     if i is not None:
                         out[i][name][str(col)].add(v)
         return out
